@@ -67,6 +67,10 @@ CurOut(n) == IF s.val[n].output = "" THEN n ELSE s.val[n].output
 AltOut(n) == IF s.val[n].output = "a4" THEN "a5" ELSE "a4"
 AltChains(n) == IF s.val[n].chains = <<"0001">> THEN <<"0001", "0002">> ELSE <<"0001">>
 AltDels(n) == IF s.val[n].delegators = D5 THEN NoDelegators ELSE D5
+\* a map of the same size under another key / the same keys with another share
+D6 == [a6 |-> 10]
+SwapDels(n) == IF s.val[n].delegators = D5 THEN D6 ELSE D5
+ShareDels(n) == LET d == s.val[n].delegators IN IF DOMAIN d = {} THEN D5 ELSE [k \in DOMAIN d |-> d[k] + 1]
 
 NewStakes(id) ==
     IF HasVal(s, "a3") THEN {}
@@ -87,6 +91,9 @@ Edits(n, id) ==
        StakeTx(n, AltOut(n), v.tokens + 1000000, v.chains, v.url, v.delegators, CurOut(n), id), \* output by output
        StakeTx(n, o, v.tokens + 1000000, v.chains, v.url, AltDels(n), n, id),                \* delegators by operator
        StakeTx(n, o, v.tokens + 1000000, v.chains, v.url, AltDels(n), CurOut(n), id),        \* delegators by output
+       StakeTx(n, o, v.tokens, v.chains, v.url, SwapDels(n), n, id),                         \* other delegator key by operator
+       StakeTx(n, o, v.tokens, v.chains, v.url, SwapDels(n), CurOut(n), id),                 \* other delegator key by output
+       StakeTx(n, o, v.tokens, v.chains, v.url, ShareDels(n), CurOut(n), id),                \* other share by output
        StakeTx(n, o, v.tokens + 2000000, v.chains, v.url, v.delegators, CurOut(n), id),      \* bump paid by output
        StakeTx(n, o, v.tokens + 1000000, v.chains, v.url, v.delegators, STRANGER, id)}          \* stranger
 
